@@ -1263,7 +1263,7 @@ impl WriteTransaction {
     }
 
     fn allocate_savepoint(&self) -> Result<(SavepointId, TransactionId)> {
-        let transaction_id = self
+        let (transaction_id, _) = self
             .transaction_tracker
             .register_read_transaction(&self.mem)?;
         let id = self.transaction_tracker.allocate_savepoint(transaction_id);
@@ -2670,8 +2670,8 @@ impl ReadTransaction {
     pub(crate) fn new(
         mem: Arc<TransactionalMemory>,
         guard: TransactionGuard,
+        root_page: Option<BtreeHeader>,
     ) -> Result<Self, TransactionError> {
-        let root_page = mem.get_data_root();
         let guard = Arc::new(guard);
         let resolver = PageResolver::new(mem.clone());
         Ok(Self {
